@@ -108,6 +108,14 @@ class CustomError(Exception):
     pass
 
 
+class UnhashableError(Exception):
+    """exception that defines __eq__ without __hash__ (legal; cannot be put into a set)"""
+    __hash__ = None
+
+    def __eq__(self, other):
+        return self is other
+
+
 class NonStrArgs(Exception):
     def __init__(self):
         Exception.__init__(self, 42, b'\xff\x00', None)
@@ -141,6 +149,60 @@ def make_exc(name, msg=None):
                 raise ValueError('during handling ' + m)
         except ValueError as e2:
             return e2
+    if name == 'CyclicCause':
+        # the "raise z from e ... raise e from z" re-raise idiom: e.__cause__ is z and z.__cause__ is e
+        try:
+            try:
+                raise KeyError('first ' + m)
+            except KeyError as e:
+                try:
+                    raise RuntimeError('second ' + m) from e
+                except RuntimeError as z:
+                    raise e from z
+        except KeyError as e2:
+            return e2
+    if name == 'CyclicContext':
+        a, b = ValueError('ctx-a ' + m), TypeError('ctx-b ' + m)
+        a.__context__, b.__context__ = b, a
+        return a
+    if name == 'SelfCause':
+        a = ValueError('self-cause ' + m)
+        a.__cause__ = a
+        return a
+    if name == 'Unhashable':
+        return UnhashableError(m)
+    if name == 'UnhashableChained':
+        try:
+            try:
+                raise UnhashableError('inner ' + m)
+            except UnhashableError as e:
+                raise UnhashableError('outer ' + m) from e
+        except UnhashableError as e2:
+            return e2
+    if name == 'CompileError':
+        try:
+            compile('def broken(:\n    pass\n', '<ztv generated>', 'exec')
+        except SyntaxError as e:
+            return e
+    if name == 'IndentationError':
+        try:
+            compile('if 1:\nx = 1\n', '<ztv generated>', 'exec')
+        except SyntaxError as e:
+            return e
+    if name == 'ExcGroup' and hasattr(__import__('builtins'), 'ExceptionGroup'):
+        return ExceptionGroup('group ' + m, [ValueError('g1'), ExceptionGroup('nested', [KeyError('g2')])])  # noqa: F821
+    if name == 'WithNotes':
+        e = ValueError(m)
+        if hasattr(e, 'add_note'):
+            e.add_note('a note\nover two lines')
+        return e
+    if name == 'LongChain':
+        e = ValueError('link 0 ' + m)
+        for i in range(1, 40):
+            n = RuntimeError('link %d' % i)
+            n.__cause__ = e
+            e = n
+        return e
     if name == 'UnicodeDecodeError':
         return UnicodeDecodeError('utf-8', b'\xff', 0, 1, m)
     if name == 'UnicodeEncodeError':
@@ -169,6 +231,10 @@ ERROR_EXCS = ('ValueError', 'KeyError', 'CustomError', 'BadStr', 'Chained', 'Con
               'UnicodeDecodeError', 'UnicodeEncodeError', 'NonStrArgs', 'RuntimeError', 'TypeError',
               'ZeroDivisionError', 'StopIteration', 'SyntaxError', 'ImportError', 'AttributeError',
               'NotImplementedError', 'BadRepr', 'LookupError')
+# unusual but legal exception objects: cyclic / self-referential / long chains, unhashable exceptions, real
+# compile errors (their traceback has a 'File' line without ', in <name>'), exception groups, notes
+ODD_EXCS = ('CyclicCause', 'CyclicContext', 'SelfCause', 'Unhashable', 'UnhashableChained', 'CompileError',
+            'IndentationError', 'ExcGroup', 'WithNotes', 'LongChain')
 
 
 # --------------------------------------------------------------------------------------------
